@@ -104,7 +104,12 @@ pub fn run(line: &str) -> String {
             done2.store(true, Ordering::SeqCst);
             let _ = tx.send(match r {
                 Ok(()) => "ok".to_string(),
-                Err(e) => format!("err.{}", err_class(&e)),
+                Err(e) => {
+                    // whatever kind of error the application handler chose to fail with is reported as `handlerErr`
+                    let k = FAIL_KIND.with(|k| k.get());
+                    let c = err_class(&e);
+                    if k != 0 && c == err_class(&handler_error(k)) { "err.handlerErr".to_string() } else { format!("err.{}", c) }
+                }
             });
         });
         if seq {
